@@ -111,12 +111,17 @@ Definition check_pure (i : input) (changed : bool) : N := if changed then 3%N el
 
 (* C12: user function IDF (identity) with any qualifier; joins compared as multisets *)
 Definition c12_call (qual name : string) (args : list value) (cur : row) : res raw :=
-  if String.eqb name "idf" then
+  if String.eqb name "idf" || String.eqb name "slowf" then
     match args with [x] => Ok (RVal x) | _ => Err end
   else OutOfModel.
 
+(* sequential joins emit their rows in a deterministic order (left catalog order), which the model
+   follows; the PARALLEL drivers append batches in completion order: multiset only *)
 Fixpoint from_has_join (f : from_clause stmt) : bool :=
-  match f with FJoin _ _ _ _ _ => true | _ => false end.
+  match f with
+  | FJoin _ (SParallel | SParallelHash | SParallelStraight) _ _ _ => true
+  | _ => false
+  end.
 Definition stmt_has_join (q : stmt) : bool :=
   match q with SSelect s => from_has_join (s_from s) | _ => false end.
 
